@@ -411,3 +411,49 @@ pub fn shrink_statement(st: &Statement) -> Vec<Statement> {
     }
     out
 }
+
+/// Build + honest prove + check that the honest proof is accepted (the precondition of every
+/// message-fault check). `None` = the base scenario is not usable (reason recorded as a skip).
+pub fn honest_accepted<C: GenericConfig<D, F = F>>(
+    st: &Statement,
+    sched: &Sched,
+    entropy: &Entropy,
+    rep: &mut Report,
+) -> Option<(Built<C>, ProofWithPublicInputs<F, C, D>)> {
+    let built = match build::<C>(st) {
+        BuildOutcome::Ok(b) => b,
+        BuildOutcome::Unsat(s) => {
+            rep.skip(&format!("unsat:{s}"));
+            return None;
+        }
+        BuildOutcome::Panicked(_) => {
+            rep.skip("base:build_panicked (reported by C01)");
+            return None;
+        }
+    };
+    arm(sched, entropy);
+    let proof = built.prove(built.honest_witness(st));
+    rep.absorb_seams();
+    let proof = match proof {
+        Ok(p) => p,
+        Err(_) => {
+            rep.skip("base:honest_prove_failed (reported by C01)");
+            return None;
+        }
+    };
+    if built.verify(&proof).is_err() {
+        rep.skip("base:honest_proof_rejected (reported by C01)");
+        return None;
+    }
+    Some((built, proof))
+}
+
+/// `verify` with explicit verifier data (the crate-level function is private).
+pub fn verify_with<C: GenericConfig<D, F = F>>(
+    proof: ProofWithPublicInputs<F, C, D>,
+    vo: &plonky2::plonk::circuit_data::VerifierOnlyCircuitData<C, D>,
+    common: &plonky2::plonk::circuit_data::CommonCircuitData<F, D>,
+) -> anyhow::Result<()> {
+    let vd = plonky2::plonk::circuit_data::VerifierCircuitData { verifier_only: vo.clone(), common: common.clone() };
+    vd.verify(proof)
+}
